@@ -190,6 +190,12 @@ func (C *Contracts) loadContractFile(path string, defaultPkg string) error {
 			cur, curMon, inSpec = nil, nil, false
 			continue
 		case "func", "extern", "iface", "fieldfunc":
+			if word == "func" && inSpec && strings.Contains(rest, ":=") {
+				if err := C.parseSpecDecl(word, rest, pkg, where(L.line)); err != nil {
+					return err
+				}
+				continue
+			}
 			fc := &FuncContract{Kind: word, Pkg: pkg, Loops: map[int]*LoopSpec{}, Where: where(L.line), NoPanic: word == "func"}
 			if m := headerSigRe.FindStringSubmatch(rest); m != nil && word != "func" {
 				fc.Key = m[1]
